@@ -39,17 +39,11 @@ func runCloseCase(env *Env, closerIsServer bool, writes []int, key uint64, close
 	}
 	obs := &closeObs{}
 	var mu sync.Mutex
-	accepted := make(chan net.Conn, 1)
-	go func() {
-		c, err := env.Srv.Accept()
-		if err == nil {
-			accepted <- c
-		}
-	}()
 	cc, err := dial(cm)
 	if err != nil {
 		return nil, err
 	}
+	accepted := env.Expect(sessionID(cc))
 	// open the session: the client must write first
 	var sc net.Conn
 	if closerIsServer {
